@@ -32,6 +32,10 @@ type Options struct {
 	Ctx        context.Context
 	NoHook     bool
 	Vars       map[string]model.Value
+	// TraceCap, when positive, stops the recording of host calls once that many bytes
+	// have been recorded in one run (crash oracles do not compare traces, and printing
+	// a value nested thousands of levels deep at every call is cubic).
+	TraceCap int
 	// PrePrepare calls Prepare once before the context is set (and then again after
 	// SetContext, as documented): an API order a host may well use to validate a script.
 	PrePrepare bool
@@ -79,6 +83,8 @@ type Evaluator struct {
 	OpHist  *[64]int64 // optional shared opcode histogram
 	OnStep  func(m *vm.VM, ip int, op code.Opcode) error
 	stopped atomic.Bool
+
+	traceCap, traceBytes int
 }
 
 // Describe renders an engine object as "TYPE:printed".
@@ -103,6 +109,14 @@ func (ev *Evaluator) hostV(args []object.Object) object.Object {
 }
 
 func (ev *Evaluator) record(name string, args []object.Object) {
+	if ev.traceCap > 0 && ev.traceBytes > ev.traceCap {
+		return
+	}
+	defer func() {
+		if ev.traceCap > 0 {
+			ev.traceBytes += len(ev.trace[len(ev.trace)-1])
+		}
+	}()
 	parts := make([]string, len(args))
 	for i, a := range args {
 		parts[i] = Describe(a)
@@ -114,7 +128,7 @@ func (ev *Evaluator) record(name string, args []object.Object) {
 // (returns its first argument), sets variables and calls Prepare. A panic
 // escaping Prepare is reported as an error wrapping ErrPanic.
 func New(script string, opt Options) (ev *Evaluator, err error) {
-	ev = &Evaluator{Script: script, budget: opt.Budget}
+	ev = &Evaluator{Script: script, budget: opt.Budget, traceCap: opt.TraceCap}
 	if ev.budget == 0 {
 		ev.budget = 2000000
 	}
@@ -207,6 +221,7 @@ func (ev *Evaluator) Steps() int64 { return ev.steps }
 // Exec runs Execute on the object and records the observation.
 func (ev *Evaluator) Exec(obj interface{}) (o Obs) {
 	ev.trace = nil
+	ev.traceBytes = 0
 	ev.steps = 0
 	defer func() {
 		if r := recover(); r != nil {
@@ -239,6 +254,7 @@ func (ev *Evaluator) Exec(obj interface{}) (o Obs) {
 // RunBool calls Run (the boolean front end).
 func (ev *Evaluator) RunBool(obj interface{}) (b bool, err error, panicked bool, msg string) {
 	ev.trace = nil
+	ev.traceBytes = 0
 	ev.steps = 0
 	defer func() {
 		if r := recover(); r != nil {
